@@ -25,29 +25,43 @@ LEVEL = "proof"
 ENGINES = ["lean-model", "kopfsim"]
 TIE = ("S: closed-loop step refinement — the silent tail of every simulated history of the real operator (after restarts, "
        "kills before/after an applied write, downtimes, lost responses) replayed pass by pass through the Lean `loopStep`")
+STRENGTH = "partial"
 LEVEL_TEXT = (
     "Lean theorems for every state of the closed loop of one object (any records, last-handled state, deletion mark, own "
-    "finalizer, memory flags, clock, handler set, lifecycle, limits, delays — no bounds): terminates (for every cause incl. "
-    "deletion and the finalizer-adjusting turn composed with C06's `decision`; explicit bound, ranking function), final_state "
-    "(not deleted: last-handled = essence, NO owned progress record, a further event causes no write), final_state_deleted "
-    "(marked + own finalizer: released, gone unless a foreign finalizer holds it), converges / deletion_converges, "
-    "all_selected_completed, invoked_once_after_last_change (via C02), restart_safe (induction over EVERY history of turns with "
-    "arbitrary outcomes, edits, deletion requests, restarts, kills before/after the write, from a fresh object), "
-    "accumulated_change (cause from last-handled and final essence only + at most one closing pass), skip_path_purges, "
-    "terminates_stable + filtersStable_of_essence (the guard 'filters do not read what the framework writes', explicit). "
-    "The clause 'completed against the final essential state' is FALSE of the code: completed_against_final_partial under "
-    "the exact guard + absorbed_change_witness as its negation (open finding C03-F4); 'no records / last-handled = essence' "
-    "is false for objects the framework is blind to: blind_quiescent + blind_witness (open finding C03-F2). Repaired and kept "
-    "as regressions: C03-F1 (2ae938f, skip_path_purges), C03-F3 (d1b2dc4, final_state), C03-F5 (1c8f3dd), C03-F7 (7224f57, open_pass_leaves_event; "
-    "`Env.constPatch` models a patch that changes nothing). C03-F6 (name-addressed patches after delete+recreate) "
-    "lies in C08's part and is found by the oracle only. The model is hand-written and tied per turn to whole-operator "
-    "simulations incl. finalizer turns and deletion tails; daemons (C09), the consistency wait (C07), patch conflicts (C08) and "
-    "foreign finalizer edits (C06) are outside this model.")
+    "finalizer, memory flags incl. the in-memory set of resuming handlers already done (6c4463d), clock, handler set, lifecycle, "
+    "limits, delays — no bounds). FULL (no guard beyond well-formedness): terminates (every cause incl. deletion and the "
+    "finalizer-adjusting turn composed with C06's `decision`; explicit bound = ranking function; the outcomes from the state on "
+    "are final — 'finitely many failures' enters as an ARBITRARY prefix of turns (restart_safe), it is not proved that a script's "
+    "retry counters leave its failing prefix), all_selected_completed, restart_safe (induction over every history of turns with "
+    "arbitrary outcomes, edits, deletion requests, restarts, kills before/after the write, where EACH action has its own "
+    "environment: selection, prematch, finalizer requirement may change with every edit), accumulated_change (cause from "
+    "last-handled and final essence only, at most one closing pass; the old/new/diff kwargs are checked by the oracle only), "
+    "skip_path_purges, blind_quiescent, free_quiescent (marked, not held by us, held by others: one turn, no write beyond the "
+    "constant patch). PARTIAL, each with the exact guard in its name/statement and a proved witness that the guard is needed: "
+    "final_state_partial / final_state_deleted_partial / converges_partial / deletion_converges_partial / "
+    "open_pass_leaves_event_partial / invoked_once_after_last_change under `idle env = false` (no handler appends a patch "
+    "function that yields no operations) — without it idle_fns_lost_wakeup_witness: the sleep and the touch are skipped, no "
+    "request is sent, no event follows, the retry never happens (OPEN finding C03-N1; its carried-patch variant C03-N2 is found by "
+    "the oracle); completed_against_final_partial under 'the handler has not finished yet when the final state arrives' — "
+    "without it absorbed_change_witness (OPEN C03-F4); final_state_partial needs `prematch` — without it blind_witness (OPEN "
+    "C03-F2); shared_id_witness: one id registered for update and delete, the finished update record is taken for the deletion "
+    "handler's (OPEN C03-N3; the model mirrors the code, the property's clause 'every selected handler completed' is stated "
+    "per ID in all_selected_completed, so only the oracle, which counts CALLS of the deletion handler, sees it); "
+    "terminates_stable is `terminates` transported under the guard FiltersStable, which IS the needed fact "
+    "(filtersStable_of_essence gives the sufficient condition 'filters read the essence only'). Repaired in /repo and kept as "
+    "regressions: C03-F1 (2ae938f), C03-F3 (d1b2dc4), C03-F5 (1c8f3dd, finalizer functions only — the rest is N2), C03-F7 "
+    "(7224f57). C03-F6 (name-addressed patches after delete+recreate) lies in C08's part and is found by the oracle only. 'A "
+    "further event causes no write' reads `writes + cp env`: with a constant patch one request per event is sent, changing "
+    "nothing. ORACLE/TIE ONLY: changes made while down are seen after the start (`restart` sets `pending` by definition; tie), "
+    "old/new/diff of the accumulated change, delivery timings (one `pending` flag; stale/suppressed cycles are C07's). The "
+    "model is hand-written and tied per turn to whole-operator simulations incl. finalizer turns, deletion tails, foreign "
+    "finalizers, idle patch functions; daemons (C09), the consistency wait (C07), patch conflicts (C08) are outside this model.")
 THEOREMS = [("Kopf.Props.C03", "Kopf.C03." + n) for n in [
-    "terminates", "final_state", "final_state_deleted", "converges", "deletion_converges",
+    "terminates", "final_state_partial", "final_state_deleted_partial", "converges_partial", "deletion_converges_partial",
     "all_selected_completed", "completed_against_final_partial", "absorbed_change_witness",
-    "open_pass_leaves_event", "invoked_once_after_last_change", "restart_safe", "accumulated_change", "blind_quiescent", "blind_witness",
-    "skip_path_purges", "terminates_stable", "filtersStable_of_essence"]]
+    "open_pass_leaves_event_partial", "idle_fns_lost_wakeup_witness", "invoked_once_after_last_change", "restart_safe",
+    "accumulated_change", "blind_quiescent", "blind_witness", "free_quiescent", "shared_id_witness",
+    "free_witness", "skip_path_purges", "terminates_stable", "filtersStable_of_essence"]]
 RULE = ("seeded histories of one object: 1-4 change handlers (create/update/resume/delete, label filters, retries/timeout/backoff/"
         "errors, scripts with finitely many temporary/arbitrary/permanent failures then ok, three lifecycles), 0-6 external ops "
         "(spec edits, reverts, label flips, annotation edits, status-only edits, bursts, delete(+recreate), graceful stop / kill / kill right before or "
@@ -90,6 +104,10 @@ SIG_F3 = {"site": "process_changing_cause", "shape": "change reverted to the las
 SIG_F7 = {"site": "application.apply", "shape": "sleep skipped because of a patch that changes nothing on the server: no event follows, the delayed handlers are never woken"}
 SIG_F6 = {"site": "patching.patch_obj", "shape": "request target uid ≠ computed-for uid: the cycle of a deleted object wrote its results onto the successor created under the same name"}
 SIG_F5 = {"site": "process_resource_causes+apply", "shape": "cycle entered with a carried remaining patch that produces no request: state-dependent handlers skipped, nothing written, no further event — handling never resumes"}
+SIG_N1 = {"site": "application.apply", "shape": "non-empty patch that yields no request (only patch functions without operations) counted as a change: sleep and touch skipped, no event follows, delayed handlers never woken"}
+SIG_N2 = {"site": "process_resource_causes+apply", "shape": "cycle entered with a carried handler patch function that has become a no-op: handlers skipped, nothing written, no further event — the newer change is never handled"}
+SIG_N3 = {"site": "process_changing_cause", "shape": "one handler id registered for two causes: the finished record of the other cause is re-purposed, the handler of the current cause is never called"}
+SIG_N4 = {"site": "process_resource_causes", "shape": "object marked for deletion, not held by the framework's finalizer but by another: out of sight, stale progress record / last-handled stay"}
 SIG_F4 = {"site": "process_changing_cause", "shape": "handler finished on an older state of a still-open cycle is not re-run for the newer state, yet last-handled becomes the newer state"}
 
 
@@ -211,11 +229,14 @@ class Facts:
         prev = prev_st = None
         for v in self.hist:
             b = v["body"]
+            if b["metadata"].get("uid") == self.uid and v["event"] == "DELETED" and prev is not None and prev_st[1]:
+                # the object went away because the OTHER party removed its finalizer: an action of the environment
+                self.t_for, self.rv_for = float(v["t"]), int(b["metadata"]["resourceVersion"])
             if b["metadata"].get("uid") != self.uid or v["event"] == "DELETED":
                 prev = None
                 continue
             cur = (py_essence(b), bool(b["metadata"].get("deletionTimestamp")))
-            st = b.get("status")
+            st = (b.get("status"), sorted(x for x in (b["metadata"].get("finalizers") or []) if x != FINALIZER))
             if prev is None or cur != prev:
                 self.t_ess, self.rv_ess = float(v["t"]), int(b["metadata"]["resourceVersion"])
             if prev is None or cur != prev or st != prev_st:
@@ -234,21 +255,40 @@ class Facts:
         # lost wake-up: the object's last processing cycle started with a carried remaining patch (after a 422 on a
         # finalizer JSON-patch), skipped the handlers for that reason and then issued no request at all
         mine = [c for c in tr["cycles"] if c["uid"] == self.uid and c["inc"] == self.last_inc and c["event_type"] != "DELETED"]
-        # lost wake-up of another kind: the last cycle had delayed handlers AND a non-empty patch, so the sleep was
-        # skipped; but the patch changed nothing on the server (same resource version), so no event followed
-        self.noop_patch = False
-        if mine:
-            c = mine[-1]
-            ap = c.get("apply") or {}
-            self.noop_patch = bool(ap.get("delays") and ap.get("patch") and ap.get("rv") is not None
-                                   and str(ap.get("rv")) == str(c.get("rv")))
-        self.lost_wakeup = False
+        who = f"op#{self.last_inc}"
+        self.lost_wakeup = None      # "finalizer" | "handler": which kind of carried function swallowed the cycle
+        self.idle_fns = False        # the last cycle had delays and a patch of functions only that produced no request
         if mine and self.final is not None:
             c = mine[-1]
             mb = c.get("mem_before") or {}
-            who = f"op#{self.last_inc}"
-            self.lost_wakeup = bool(c.get("pcc") is None and mb.get("remaining_patch")
-                                    and not any(r.get("who") == who and r["wall"] >= c["t0"] for r in self.patches))
+            ap = c.get("apply") or {}
+            silent = not any(r.get("who") == who and r["wall"] >= c["t0"] for r in self.patches)
+            if c.get("pcc") is None and mb.get("remaining_patch") and silent:
+                names = set(ap.get("fns") or [])
+                self.lost_wakeup = "finalizer" if names and names <= {"block_deletion", "allow_deletion"} else "handler"
+            elif ap.get("delays") and not ap.get("patch") and ap.get("fns") and silent:
+                self.idle_fns = True
+        # what the cross-uid writes carried: annotation keys set / deleted on the successor
+        self.cross_set, self.cross_del = set(), set()
+        for r in self.cross_uid:
+            pl = r.get("payload")
+            anns = ((pl or {}).get("metadata") or {}).get("annotations") or {} if isinstance(pl, dict) else {}
+            for k, v in anns.items():
+                (self.cross_del if v is None else self.cross_set).add(k)
+
+    def cross_explains(self, about: tuple | None) -> bool:
+        """Is the failure `about` a direct consequence of the content of a cross-uid write (C08's finding F2)?"""
+        if not self.cross_uid or about is None:
+            return False
+        key = lambda hid: OWN_PREFIX + hid.replace("/", ".")     # noqa: E731
+        if about[0] == "record":          # a record remains: it was put there by the foreign cycle
+            return key(about[1]) in self.cross_set
+        if about[0] == "base":            # last-handled differs: the foreign cycle wrote (or removed) it
+            return LAST_HANDLED in self.cross_set or LAST_HANDLED in self.cross_del
+        if about[0] in ("completion", "deletion"):   # the handler never completed: the foreign cycle wrote last-handled
+            # (the creation is then never seen) or wrote / purged this handler's record
+            return LAST_HANDLED in self.cross_set or key(about[1]) in self.cross_set or key(about[1]) in self.cross_del
+        return False
 
 
 # ---- the oracle -------------------------------------------------------------------------------------------
@@ -257,39 +297,18 @@ def oracle(ctx: Ctx, sc: dict, tr: dict) -> dict:
     f = Facts(sc, tr)
     rep = {"scenario": sc}
     out: dict[str, Any] = {"class": "converged", "findings": []}
-    if f.noop_patch and not f.cross_uid:
-        real_fail7 = ctx.oracle_fail
 
-        class _Resigned7:
-            def __getattr__(self, name: str) -> Any:
-                return getattr(ctx, name)
-
-            def oracle_fail(self, what: str, replay: Any, signature: dict | None = None) -> None:
-                if signature in (SIG_F2, SIG_F4):
-                    real_fail7(what, replay, signature)
-                else:
-                    real_fail7(what + " [the last cycle skipped its sleep for a patch that changed nothing: no event follows]",
-                               replay, SIG_F7)
-                    out["findings"].append("C03-F7")
-        ctx = _Resigned7()   # type: ignore[assignment]
-    if f.cross_uid:
-        # the object received the results of its predecessor's cycle (C08's finding F2): whatever goes wrong with it
-        # afterwards is a consequence of that write, reported under its own signature
-        real_fail = ctx.oracle_fail
-
-        class _Resigned:
-            def __getattr__(self, name: str) -> Any:
-                return getattr(ctx, name)
-
-            def oracle_fail(self, what: str, replay: Any, signature: dict | None = None) -> None:
-                if signature in (SIG_F2, SIG_F3, SIG_F4, SIG_F5):
-                    real_fail(what, replay, signature)
-                else:
-                    real_fail(what + " [after a write computed for the deleted predecessor landed on this object]",
-                              {**replay, "cross_uid_writes": [[r["wall"], r["cycle_uid"], r["target_uid"], r.get("payload")] for r in f.cross_uid[:3]]},
-                              SIG_F6)
-                    out["findings"].append("C03-F6")
-        ctx = _Resigned()   # type: ignore[assignment]
+    def fail(what: str, replay: Any, signature: dict, about: tuple | None = None, tag: str | None = None) -> None:
+        """Report a failure; ONLY a failure that the content of a cross-uid write explains (it put that record / that
+        last-handled state onto this object) is reported as the consequence of that write (C03-F6)."""
+        if signature not in (SIG_F2, SIG_F4, SIG_N1, SIG_N2, SIG_N3) and f.cross_explains(about):
+            ctx.oracle_fail(what + " [after a write computed for the deleted predecessor landed on this object]",
+                            {**replay, "cross_uid_writes": [[r["wall"], r["cycle_uid"], r["target_uid"], r.get("payload")] for r in f.cross_uid[:3]]},
+                            SIG_F6)
+            out["findings"].append("C03-F6")
+        else:
+            ctx.oracle_fail(what, replay, signature)
+            out["findings"].append(tag or "unlisted")
 
     # last-handled written while a selected handler has not finished (at any time of the history)
     for cyc in tr["cycles"]:
@@ -326,46 +345,87 @@ def oracle(ctx: Ctx, sc: dict, tr: dict) -> dict:
         out["class"] = "never-quiescent"
         return out
 
+    def shared_with(h: dict) -> list[str]:
+        return sorted({g["kind"] for g in _changing(sc) if g["id"] == h["id"] and g["kind"] != h["kind"]})
+
+    def deletion_handlers_done(lb: dict) -> bool:
+        """Every matching MANDATORY deletion handler has a final outcome from a pass on the object marked for deletion."""
+        good = True
+        for h in _changing(sc):
+            if h["kind"] != "delete" or h.get("opts", {}).get("optional") or not py_matches(h, lb):
+                continue        # optional deletion handlers run only if the object happens to be still held
+            ev = [c for c in tr["cycles"] if c["uid"] == f.uid and c.get("pcc") and c["body"]["metadata"].get("deletionTimestamp")
+                  and c["pcc"]["reason"] == "delete" and (c["pcc"].get("outcomes") or {}).get(h["id"], {}).get("final")]
+            if ev:
+                continue
+            good = False
+            first = next((c for c in tr["cycles"] if c["uid"] == f.uid and c.get("pcc") and c["pcc"]["reason"] == "delete"), None)
+            rec0 = own_record(first["body"], h["id"]) if first else None
+            if shared_with(h) and rec0 and (rec0.get("success") or rec0.get("failure")):
+                fail(f"the object was released although its deletion handler {h['id']} was never called: the id is also registered for "
+                     f"{shared_with(h)}, whose finished record was taken for the deletion handler's",
+                     {**rep, "record_at_first_deletion_pass": rec0}, SIG_N3, tag="C03-N3")
+            else:
+                fail(f"the object was released although its deletion handler {h['id']} never reached a final outcome",
+                     {**rep, "last_body": lb}, {"site": "process_resource_causes", "shape": "released before the deletion handlers completed"},
+                     about=("deletion", h["id"]))
+        return good
+
+    def held_while_marked() -> bool:
+        return any(v["body"]["metadata"].get("uid") == f.uid and v["body"]["metadata"].get("deletionTimestamp")
+                   and FINALIZER in (v["body"]["metadata"].get("finalizers") or []) for v in f.hist)
+
     if f.final is None:
         out["class"] = "gone"
         lb = f.last_body
-        if lb is not None and lb["metadata"].get("deletionTimestamp") and FINALIZER in (lb["metadata"].get("finalizers") or []):
-            # the deletion went through the framework's finalizer: every matching MANDATORY deletion handler has a final outcome
-            # from a pass on the object marked for deletion
-            out["class"] = "gone-released"
-            for h in _changing(sc):
-                if h["kind"] != "delete" or h.get("opts", {}).get("optional") or not py_matches(h, lb):
-                    continue        # optional deletion handlers run only if the object happens to be still held
-                ev = [c for c in tr["cycles"] if c["uid"] == f.uid and c.get("pcc") and c["body"]["metadata"].get("deletionTimestamp")
-                      and (c["pcc"].get("outcomes") or {}).get(h["id"], {}).get("final")]
-                if not ev and not f.cross_uid:
-                    ctx.oracle_fail(f"the object was released and is gone although its deletion handler {h['id']} never reached a final outcome",
-                                    {**rep, "last_body": lb}, {"site": "process_resource_causes", "shape": "released before the deletion handlers completed"})
-                    out["class"] = "released-early"
+        if lb is not None and held_while_marked():
+            # the deletion went through the framework's finalizer
+            out["class"] = "gone-released" if deletion_handlers_done(lb) else "released-early"
         return out
     if f.marked:
         fins = f.final["metadata"].get("finalizers") or []
         if FINALIZER in fins:
-            ctx.oracle_fail("object marked for deletion is still held by the framework's finalizer at quiescence",
-                            {**rep, "final": f.final}, {"site": "process_resource_causes", "shape": "marked object never released"})
+            if f.idle_fns:
+                fail("the deletion handlers wait for a retry that never comes: the last cycle's patch held only functions that produced "
+                     "no request, the sleep and the touch were skipped", {**rep, "final": f.final}, SIG_N1, tag="C03-N1")
+                out["class"] = "lost-wakeup"
+                return out
+            fail("object marked for deletion is still held by the framework's finalizer at quiescence",
+                 {**rep, "final": f.final}, {"site": "process_resource_causes", "shape": "marked object never released"})
             out["class"] = "stuck-deletion"
-        else:
-            out["class"] = "marked-foreign"
+            return out
+        # released (or never held) by the framework, held by somebody else's finalizer
+        out["class"] = "marked-foreign"
+        if held_while_marked() and not deletion_handlers_done(f.final):
+            out["class"] = "released-early"
+        ann = f.final["metadata"].get("annotations") or {}
+        left = [h for h in _all_ids(sc) if OWN_PREFIX + h.replace("/", ".") in ann]
+        for h in left:
+            fail(f"progress record of handler {h} remains on the object marked for deletion and held by a foreign finalizer only",
+                 {**rep, "annotations": sorted(ann), "finalizers": fins}, SIG_N4, about=("record", h), tag="C03-N4")
+            out["class"] = "records-left"
         return out
 
     base = py_base(f.final)
-    if f.lost_wakeup and not f.blind and base != f.ess:
-        ctx.oracle_fail("handling stopped for good with the change still outstanding: the last cycle carried a remaining patch, "
-                        "skipped the handlers and wrote nothing, so no event will ever re-trigger it",
-                        {**rep, "last_handled": base, "essence": f.ess, "annotations": sorted((f.final["metadata"].get("annotations") or {}))},
-                        SIG_F5)
+    if f.idle_fns and not f.blind:
+        fail("handling stopped for good with handlers still waiting for their retry: the last cycle's patch held only functions "
+             "that produced no request; that counted as a change, so the sleep and the touch were skipped and no event follows",
+             {**rep, "last_handled": base, "essence": f.ess, "annotations": sorted((f.final["metadata"].get("annotations") or {}))},
+             SIG_N1, tag="C03-N1")
         out["class"] = "lost-wakeup"
-        out["findings"].append("C03-F5")
+        return out
+    if f.lost_wakeup and not f.blind and base != f.ess:
+        fail("handling stopped for good with the change still outstanding: the last cycle carried a remaining patch, "
+             "skipped the handlers and wrote nothing, so no event will ever re-trigger it",
+             {**rep, "last_handled": base, "essence": f.ess, "annotations": sorted((f.final["metadata"].get("annotations") or {}))},
+             SIG_F5 if f.lost_wakeup == "finalizer" else SIG_N2, tag="C03-F5" if f.lost_wakeup == "finalizer" else "C03-N2")
+        out["class"] = "lost-wakeup"
         return out
     if not f.blind and base != f.ess:
-        ctx.oracle_fail("recorded last-handled state differs from the final essential state at quiescence",
-                        {**rep, "last_handled": base, "essence": f.ess},
-                        {"site": "process_changing_cause", "shape": "last-handled state differs from the final essential state at quiescence"})
+        fail("recorded last-handled state differs from the final essential state at quiescence",
+             {**rep, "last_handled": base, "essence": f.ess},
+             {"site": "process_changing_cause", "shape": "last-handled state differs from the final essential state at quiescence"},
+             about=("base",))
         out["class"] = "base-mismatch"
 
     # no progress records remain
@@ -388,9 +448,8 @@ def oracle(ctx: Ctx, sc: dict, tr: dict) -> dict:
                 sig, tag = SIG_F3, "C03-F3"
             else:
                 sig, tag = {"site": "process_changing_cause", "shape": "progress record remains at quiescence"}, None
-            ctx.oracle_fail(f"progress record of handler {h} remains on the object at quiescence",
-                            {**rep, "annotations": sorted(ann)}, sig)
-            out["findings"].append(tag or "unlisted")
+            fail(f"progress record of handler {h} remains on the object at quiescence",
+                 {**rep, "annotations": sorted(ann)}, sig, about=("record", h), tag=tag)
         out["class"] = "records-left"
 
     # every handler selected for the outstanding change completed against the final essential state
@@ -404,30 +463,55 @@ def oracle(ctx: Ctx, sc: dict, tr: dict) -> dict:
                 if h["kind"] != outstanding or not py_matches(h, f.final):
                     continue
                 hid = h["id"]
-                ev = [c for c in f.fin_cycles if c.get("pcc") and (c["pcc"].get("outcomes") or {}).get(hid, {}).get("final")]
+                ev = [c for c in f.fin_cycles if c.get("pcc") and c["pcc"]["reason"] == outstanding
+                      and (c["pcc"].get("outcomes") or {}).get(hid, {}).get("final")]
                 if ev:
                     for c in ev:
                         for call in _calls_of(tr, c):
                             if call["id"] == hid and call.get("body") is not None and py_essence(call["body"]) != f.ess:
-                                ctx.oracle_fail(f"handler {hid} completed in a pass on the final state but was given another body",
-                                                {**rep, "call": call}, {"site": "execute_handler_once", "shape": "handler body differs from the pass body"})
+                                fail(f"handler {hid} completed in a pass on the final state but was given another body",
+                                     {**rep, "call": call}, {"site": "execute_handler_once", "shape": "handler body differs from the pass body"})
                     continue
                 rec0 = own_record(c0["body"], hid)
-                if rec0 and (rec0.get("success") or rec0.get("failure")):
-                    ctx.oracle_fail(f"handler {hid} (selected for the outstanding {outstanding}) never ran against the final essential "
-                                    f"state: its result on an older state of the same open cycle was kept",
-                                    {**rep, "record_at_first_pass_on_final_state": rec0}, SIG_F4)
-                    out["findings"].append("C03-F4")
+                if rec0 and (rec0.get("success") or rec0.get("failure")) and shared_with(h) \
+                        and rec0.get("purpose") not in (None, outstanding):
+                    fail(f"handler {hid} (selected for the outstanding {outstanding}) was never called for it: the id is also registered "
+                         f"for {shared_with(h)}, whose finished record was taken for this handler's",
+                         {**rep, "record_at_first_pass_on_final_state": rec0}, SIG_N3, tag="C03-N3")
+                elif rec0 and (rec0.get("success") or rec0.get("failure")):
+                    fail(f"handler {hid} (selected for the outstanding {outstanding}) never ran against the final essential "
+                         f"state: its result on an older state of the same open cycle was kept",
+                         {**rep, "record_at_first_pass_on_final_state": rec0}, SIG_F4, tag="C03-F4")
                 else:
-                    ctx.oracle_fail(f"handler {hid} (selected for the outstanding {outstanding}) never completed against the final essential state",
-                                    {**rep, "first_pass": c0["i"]},
-                                    {"site": "process_changing_cause", "shape": "selected handler never completed against the final state"})
-                    out["findings"].append("unlisted")
+                    fail(f"handler {hid} (selected for the outstanding {outstanding}) never completed against the final essential state",
+                         {**rep, "first_pass": c0["i"]},
+                         {"site": "process_changing_cause", "shape": "selected handler never completed against the final state"},
+                         about=("completion", hid))
                     out["class"] = "not-completed"
 
+    # every resuming handler the last incarnation selected for the object reached a final outcome (in this or an earlier
+    # process: then its finished record was on the object when it was selected)
+    if not f.blind:
+        mine = [c for c in tr["cycles"] if c["uid"] == f.uid and c["inc"] == f.last_inc and c.get("pcc")
+                and not c["body"]["metadata"].get("deletionTimestamp")]
+        for h in _changing(sc):
+            hid = h["id"]
+            if h["kind"] != "resume" or not py_matches(h, f.final):
+                continue
+            sel = [c for c in mine if hid in c["pcc"]["selected"]]
+            if not sel:
+                continue
+            done = any((c["pcc"].get("outcomes") or {}).get(hid, {}).get("final") for c in mine) or \
+                any((own_record(c["body"], hid) or {}).get("success") or (own_record(c["body"], hid) or {}).get("failure") for c in sel)
+            if not done:
+                fail(f"resuming handler {hid} was selected after the operator's start (cycle {sel[0]['i']}) but never reached a final "
+                     f"outcome, although the object is quiescent",
+                     {**rep, "first_selected_in": sel[0]["i"], "last_selected_in": sel[-1]["i"]},
+                     {"site": "process_changing_cause", "shape": "resuming handler selected after a start never completed"},
+                     about=("completion", hid))
+                out["class"] = "not-completed"
+
     accumulated(ctx, sc, tr, out)
-    if f.cross_uid:
-        out["findings"] = [x for x in out["findings"] if x != "unlisted"]
     return out
 
 
@@ -513,11 +597,21 @@ def abstract_tail(sc: dict, tr: dict, cap: int) -> tuple[list | None, Any]:
         return None, "no-object"
     if f.final is None and not f.last_body["metadata"].get("deletionTimestamp"):
         return None, "deleted-at-once"      # no finalizer held it: the deletion itself ends the history
-    if float(sc.get("settings", {}).get("watching.server_timeout", 4096.0)) < f.end:
-        return None, "relisting-in-tail"
-    if any(isinstance(a, list) and a and a[0] == "fn" for h in sc["handlers"] for a in list(h.get("script", [])) + [h.get("default")]):
-        return None, "user-patch-fns"          # JSON-patch transformations of the handlers: C08's transport, outside the model
-    const_patch = any(h["kind"] == "event" and isinstance(h.get("default"), list) and len(h["default"]) > 1 for h in sc["handlers"])
+    def _fn(a: Any) -> bool:
+        return isinstance(a, list) and bool(a) and a[0] == "fn"
+    fn_users = [h for h in sc["handlers"] if any(_fn(a) for a in list(h.get("script", [])) + [h.get("default")])]
+    idle_vals = None
+    if fn_users:
+        # patch functions of the handlers: modelled only as the IDLE class (`Env.idleFns`) — on.event handlers appending an
+        # idempotent function of a constant, which yields no operation once the object carries the value; anything else is
+        # C08's transport (JSON-patch after merge-patch, conflicts, carried patches), outside the model
+        if all(h["kind"] == "event" and not h.get("script") and _fn(h.get("default")) and not isinstance(h["default"][1], str)
+               and (len(h["default"]) < 3 or h["default"][2] == "ok") for h in fn_users):
+            idle_vals = [h["default"][1] for h in fn_users]
+        elif any(h["kind"] == "event" for h in fn_users):
+            return None, "user-patch-fns"
+    const_patch = any(h["kind"] == "event" and isinstance(h.get("default"), list) and len(h["default"]) > 1 and h["default"][0] == "ok"
+                      for h in sc["handlers"])
     if const_patch and any(isinstance(a, list) and a[0] == "temp" and len(a) > 1 and a[1] * 64 > cap
                            for h in sc["handlers"] for a in h.get("script", [])):
         # not modelled: with a constant no-op patch in every cycle, the cycle after a keepalive touch that wakes nobody
@@ -527,16 +621,17 @@ def abstract_tail(sc: dict, tr: dict, cap: int) -> tuple[list | None, Any]:
         return None, "fault-window-in-tail"   # the closing edit of the window had no effect (e.g. the object was gone by then)
     if f.cross_uid:
         return None, "cross-uid-write"      # not silent: a write of the deleted predecessor's cycle landed on this object
-    if any(x != FINALIZER for x in (f.last_body["metadata"].get("finalizers") or [])):
-        return None, "foreign-finalizer"
+    foreign = any(x != FINALIZER for x in (f.last_body["metadata"].get("finalizers") or []))
     # the tail: the last incarnation's cycles on bodies that carry the last external write
     cycles = [c for c in tr["cycles"] if c["uid"] == f.uid and c["inc"] == f.last_inc and c["t0"] >= f.t_for
               and int(c["rv"]) >= f.rv_for and c["event_type"] != "DELETED"]
 
     def fin_turn(c: dict) -> str | None:
         fns = (c.get("apply") or {}).get("fns") or []
-        if c.get("pcc") is None and fns:
-            return "add-finalizer" if "block_deletion" in fns else "remove-finalizer"
+        if c.get("pcc") is None and "block_deletion" in fns:
+            return "add-finalizer"
+        if c.get("pcc") is None and "allow_deletion" in fns:
+            return "remove-finalizer"
         return None
 
     def suppressed(c: dict) -> bool:       # the consistency barrier (C07) held the cycle back, or nothing was detected
@@ -556,10 +651,18 @@ def abstract_tail(sc: dict, tr: dict, cap: int) -> tuple[list | None, Any]:
         return int(c["rv"]) < cur
 
     dropped_dummy = False
+    dropped: dict[str, int] = {}
     while cycles and (suppressed(cycles[0]) or stale(cycles[0])
                       or (fin_turn(cycles[0]) and (dummy(cycles[0]) or dropped_dummy))):
+        why = "suppressed" if suppressed(cycles[0]) else ("stale-view" if stale(cycles[0]) else "finalizer-turn+dummy")
+        dropped[why] = dropped.get(why, 0) + 1
         dropped_dummy = dropped_dummy or bool(fin_turn(cycles[0]) and not stale(cycles[0]))
         cycles.pop(0)
+    # inside the tail: the echo of the merge half of a two-request write (e.g. the release: purge + finalizer removal),
+    # held back by the barrier (C07) — the model's turn is atomic over both requests
+    for c in [c for c in cycles[1:-1] if suppressed(c)]:
+        dropped["suppressed-mid-tail"] = dropped.get("suppressed-mid-tail", 0) + 1
+        cycles.remove(c)
     # after the release of a deleted object: the echo of the merge half (held back by the barrier)
     gone = f.final is None
     t_trail = f.end + 1.0
@@ -569,12 +672,19 @@ def abstract_tail(sc: dict, tr: dict, cap: int) -> tuple[list | None, Any]:
     if not cycles:
         return None, "no-tail-pass"
     c0 = cycles[0]
+    if idle_vals is not None and not all(v in ((c0["body"].get("status") or {}).get("seen") or []) for v in idle_vals):
+        return None, "user-patch-fns"       # the tail starts before the functions became idle
+    if fn_users and idle_vals is None and ((c0.get("mem_before") or {}).get("remaining_patch")
+                                           or any("note_seen" in ((c.get("apply") or {}).get("fns") or []) for c in cycles)):
+        return None, "user-patch-fns"       # a handler's function is sent (or carried) inside the tail: C08's transport
     if gone:
         t_del = min((v["t"] for v in f.hist if v["event"] == "DELETED" and v["body"]["metadata"].get("uid") == f.uid), default=None)
         if t_del is not None and t_del <= c0["t0"]:
             return None, "gone-before-tail"     # only leftovers of events that were in flight when the object went away
     if any(c.get("error") for c in cycles):
         return None, "cycle-error"
+    if any(call.get("t_end", call["t"]) > call["t"] for c in cycles for call in _calls_of(tr, c)):
+        return None, "handler-takes-time"      # the model's pass has one clock reading (ASSUMPTIONS)
     decls = c14._decls(sc)
     owned = [d["id"] for d in decls]
     who = f"op#{f.last_inc}"      # the session identity of the incarnation that lives through the tail
@@ -652,12 +762,13 @@ def abstract_tail(sc: dict, tr: dict, cap: int) -> tuple[list | None, Any]:
         "fullyHandled": bool(mb["fully_handled_once"]) if mb else False,
         "marked": bool(c0["body"]["metadata"].get("deletionTimestamp")),
         "blocked": FINALIZER in (c0["body"]["metadata"].get("finalizers") or []),
-        "changeReq": change_req, "foreignFins": False,
-        "constPatch": const_patch,
+        "changeReq": change_req, "foreignFins": foreign,
+        "constPatch": const_patch, "idleFns": idle_vals is not None,
+        "resumed": sorted((mb or {}).get("resumed_handlers") or []),
         "prematch": not blind, "now": passes[0]["now"],
         "lat": 1 + round(float((sc.get("echo_delay") or {}).get("default", 0.0)) * 64), "cap": cap, "rtt": 1,
         "fuel": n + 8, "universe": owned}]
-    return req, {"passes": passes, "quiescent": True}
+    return req, {"passes": passes, "quiescent": True, "dropped": dropped, "foreign": foreign, "idle": idle_vals is not None}
 
 
 def model_view(out: dict, impl: dict) -> dict:
@@ -707,7 +818,22 @@ def gen_scenario(rng: Any, i: int) -> dict:
             else:
                 script.append(a)
                 fail_time += 3.0
-        handlers.append({"kind": kind, "id": f"{kind[0]}{k}", "opts": opts, "script": script, "default": "ok", "record_body": True})
+        default: Any = "ok"
+        if rng.random() < 0.08:
+            # a handler that takes time (awaits inside): edits, kills and deletions can arrive while it runs
+            d = rng.choice([0.25, 1.0, 3.0])
+            if script and rng.random() < 0.5:
+                script[-1] = ["sleep", d, script[-1]]
+            else:
+                default = ["sleep", d, "ok"]
+            fail_time += d * (len(script) + 1)
+        handlers.append({"kind": kind, "id": f"{kind[0]}{k}", "opts": opts, "script": script, "default": default, "record_body": True})
+    if rng.random() < 0.06 and any(h["kind"] in ("create", "update") for h in handlers):
+        # stacked registration: ONE id registered for two causes (e.g. @on.update + @on.delete on one function)
+        h0 = rng.choice([h for h in handlers if h["kind"] in ("create", "update")])
+        k2 = rng.choice(["delete", "delete", "update" if h0["kind"] == "create" else "create"])
+        handlers.append({"kind": k2, "id": h0["id"], "opts": {kk: v for kk, v in h0["opts"].items() if kk != "optional"},
+                         "script": list(h0["script"]), "default": h0["default"], "record_body": True})
     deletion = rng.random() < 0.18
     if deletion and not any(h["kind"] == "delete" and not h["opts"].get("optional") for h in handlers):
         # a history that ends with a deletion held by the framework's finalizer: a mandatory deletion handler
@@ -720,12 +846,18 @@ def gen_scenario(rng: Any, i: int) -> dict:
     if rng.random() < 0.08:
         # an on.event handler returning a constant: every cycle's patch carries content that changes nothing
         handlers.append({"kind": "event", "id": f"e{len(handlers)}", "script": [], "default": ["ok", {"v": 1}]})
+    if rng.random() < 0.06:
+        # an on.event handler appending an idempotent patch function of a constant: after the first cycle it yields no
+        # operation, every cycle's patch is non-empty and produces no request
+        handlers.append({"kind": "event", "id": f"e{len(handlers)}", "script": [], "default": ["fn", 7, "ok"]})
     user_fns = rng.random() < 0.1
+    fn_const = user_fns and rng.random() < 0.4
     if user_fns:
         # a handler that uses patch.fns (JSON-patch transformations); an external edit will land between the merge-patch
-        # and the JSON-patch of one of its cycles (422: the fns are carried to the next cycle), then more edits follow
+        # and the JSON-patch of one of its cycles (422: the fns are carried to the next cycle), then more edits follow;
+        # in the constant variant that edit also satisfies the function, which is then carried as a no-op
         k = rng.choice(["update", "update", "create"])
-        handlers.append({"kind": k, "id": f"{k[0]}{len(handlers)}", "opts": {}, "script": [], "default": ["fn", "x", "ok"],
+        handlers.append({"kind": k, "id": f"{k[0]}{len(handlers)}", "opts": {}, "script": [], "default": ["fn", 7 if fn_const else "x", "ok"],
                          "record_body": True})
     echo = rng.choice([0.0, 0.0, 0.0, 0.015625, 0.0625, 0.5])
     body0 = {"spec": {"x": 0}, "metadata": {"labels": {"l": rng.choice(["0", "1", "1"])}}}
@@ -734,6 +866,10 @@ def gen_scenario(rng: Any, i: int) -> dict:
         # an object whose essential state is EMPTY ({}), or as good as: nothing but system metadata, an empty spec, or
         # a status only — its stored last-handled state is a falsy value that still means "handled"
         body0 = rng.choice([{}, {}, {"spec": {}}, {"status": {"s": 0}}])
+    foreign = rng.random() < 0.07
+    if foreign:
+        # somebody else's finalizer holds the object: a deletion leaves it marked after the framework released it
+        body0 = {**body0, "metadata": {**(body0.get("metadata") or {}), "finalizers": ["example.com/hold"]}}
     sc: dict[str, Any] = {"seed": i, "lifecycle": rng.choice(["asap", "one_by_one", "all_at_once"]), "handlers": handlers,
                           "settings": {"execution.default_backoff": rng.choice([1.0, 2.0]),
                                        "watching.server_timeout": 32.0 if rng.random() < 0.08 else 4096.0},
@@ -815,7 +951,7 @@ def gen_scenario(rng: Any, i: int) -> dict:
             tl.append([t, "start"])
     if user_fns and not empty:
         sc["slips"] = [{"method": "PATCH", "ctype": "json-patch", "nth": rng.choice([1, 1, 2, 3]),
-                        "op": ["edit", "a", {"spec": {"x": 1000 + i % 7}}]}]
+                        "op": ["edit", "a", {"spec": {"x": 1000 + i % 7}, **({"status": {"seen": [7]}} if fn_const and rng.random() < 0.7 else {})}]}]
         for _u in range(rng.choice([2, 3])):       # make sure the handler runs, conflicts, and is needed again later
             t += rng.choice([1.0, 3.5, 6.0])
             x = max(xs) + 1
@@ -831,6 +967,9 @@ def gen_scenario(rng: Any, i: int) -> dict:
                 tl[-1].append(rng.choice(["before", "after"]))
             t += rng.choice([0.5, 3.0])
             tl.append([t, "start"])
+    if foreign and rng.random() < 0.5:
+        t += step()
+        tl.append([t, "fins", "a", []])       # the other party lets go (the framework's own finalizer stays in place)
     sc["timeline"] = tl
     if wfaults:
         sc["wfaults"] = wfaults
@@ -888,6 +1027,16 @@ def _evaluate(ctx: Ctx, scenarios: list[dict], tie: bool = True) -> None:
                 ctx.count("tie", f"skipped:{impl}")
             else:
                 ctx.count("tie", "compared")
+                for why, k in impl.pop("dropped").items():
+                    ctx.count("tail_leading_cycles_dropped", why, k)
+                if impl.pop("foreign"):
+                    ctx.count("tail_with", "foreign-finalizer")
+                if impl.pop("idle"):
+                    ctx.count("tail_with", "idle-patch-fns")
+                if req[1]["constPatch"]:
+                    ctx.count("tail_with", "const-patch")
+                if req[1]["resumed"]:
+                    ctx.count("tail_with", "resumed-handlers-in-memory")
                 for p in impl["passes"]:
                     ctx.count("tail_turn", p["reason"])
                 ctx.count("tail_end", "gone" if impl["passes"][-1].get("gone") else "live")
